@@ -77,3 +77,5 @@ def _drop_stale_harness_builds(tier):
     base = os.path.join(kani_engine.WORK, f"kt-C15-{tier}")
     for d in glob.glob(os.path.join(base, "kani", "*", "debug", "build", "tvk", "*")):
         shutil.rmtree(d, ignore_errors=True)
+
+READY = True
